@@ -136,7 +136,7 @@ def check_pair_bzr(acc, setting, source, target, s, t, label, maxk, expect_cls):
             if fl is None:
                 if inv_map(inv) != tmap:
                     tp.viol(acc, "%s:unfiltered-delta!=target" % setting,
-                                  dict(desc, rows=a, got=inv_map(inv), target=tmap))
+                                  dict(desc, rows=a, got_inventory=inv_map(inv), target_inventory=tmap))
                 if not flags["include_unchanged"] and not flags["want_unversioned"]:
                     full = a
             elif full is not None and fl:
